@@ -1743,8 +1743,10 @@ func makePointerArshaler(t reflect.Type) *arshaler {
 	}
 	fncs.marshal = func(enc *jsontext.Encoder, va addressableValue, mo *jsonopts.Struct) error {
 		// Check for cycles.
+		// A cycle made only of pointers (and interfaces) never increases
+		// the JSON depth, so also count the pointers being followed.
 		xe := export.Encoder(enc)
-		if xe.Tokens.Depth() > startDetectingCyclesAfter {
+		if xe.Tokens.Depth() > startDetectingCyclesAfter || xe.PointerDepth > startDetectingCyclesAfter {
 			if err := visitPointer(&xe.SeenPointers, va.Value); err != nil {
 				return newMarshalErrorBefore(enc, t, err)
 			}
@@ -1767,6 +1769,8 @@ func makePointerArshaler(t reflect.Type) *arshaler {
 			marshal, _ = mo.Marshalers.(*Marshalers).lookup(marshal, t.Elem())
 		}
 		v := addressableValue{va.Elem(), false} // dereferenced pointer is always addressable
+		xe.PointerDepth++
+		defer func() { xe.PointerDepth-- }() // deferred so that a panic in user code cannot leave it raised
 		return marshal(enc, v, mo)
 	}
 	fncs.unmarshal = func(dec *jsontext.Decoder, va addressableValue, uo *jsonopts.Struct) error {
